@@ -77,6 +77,11 @@ CHECKS = {
    technique="exhaustive enumeration of the full product of lossy relation values (720 single relations; all fields of <= 2-3 entries x <= 2 alternatives over a 12-value subset) through print, both readers and the lossy<->lossless conversions",
    text="Every lossy Relation over 2 names x qualifier x 3 version shapes (incl. epoch) x 6 architecture lists (absent, empty, plain, negated) x 4 profile-group shapes, and every Relations value of <= 2 (thorough 3) entries x <= 2 alternatives over 12 representative relations, is printed; the lossy reader must return an equal value, the lossless reader the same structure, lossless::Relation::from(v) must print the same text, lossy::Relation::from(lossless::Relation::from(v)) and Entry<->Vec<Relation> must be identities.",
    note="Component strings outside the menus are not explored."),
+ "C15": dict(
+   category="exploration", design_ref="DESIGN.md §3 C15",
+   technique="exhaustive enumeration of the full product (accessor pair x value menu x 6 prior paragraph states), of all ordered setter pairs per view and of a raw-text reading table, executed on the real typed views; field names in the table are written from Debian documentation, not from the code",
+   text="146 getter/setter pairs (control Source/Binary, apt Source/Package/Release, Changes, Buildinfo, copyright Header/FilesParagraph, DEP-3 PatchHeader) x 2-3 valid values (plus clearing where the setter takes an Option) x 6 prior states (field absent; present with another value; present with comments around it and a field after; fields before and after; in a two-paragraph document after / before a paragraph of another kind): the getter must return the value (live and after printing + re-reading), exactly one field of the documented Debian name must hold it (none after clearing), every other field, paragraph and comment must be unchanged. Every ordered pair of setters of a view is applied in sequence. 75 reading rows check getters on raw text (comma/space/line lists, yes/no flags, checksum triples, description lines, source/binary classification).",
+   note="Trusted base: the hand-written field names and expected readings (from Policy, deb822/deb-src-control man pages, DEP-3, DEP-5, repository format). Empty lists, case-insensitive field-name lookup and readings the statement does not document were removed from the table after triage (DESIGN §3 C15)."),
  "C17": dict(
    category="exploration", design_ref="DESIGN.md §3 C17",
    technique="exhaustive enumeration of (glob pattern x path) pairs over token/character alphabets and of all small copyright files x paths, executed through both real readers against a backtracking reference matcher and a last-match-wins reference",
